@@ -27,6 +27,7 @@ CONSTANTS Alphabet,     \* line contents, 1..k
           MaxLines,     \* texts have at most this many lines
           Contexts,     \* context sizes
           Mode,         \* "canon" | "min" | "all": which edit scripts;  "given": patches from Given
+          AllBelow,     \* pairs of texts of at most this many lines each use every edit script whatever the mode
           CanonA,       \* TRUE: the old text uses its letters in first-occurrence order (renaming symmetry)
           Given         \* set of <<id, a, b, n, patch>>, ids from 1
 
@@ -51,7 +52,7 @@ ScriptSet(a, b) ==
   LET all == Scripts(a, b, 1, 1)
       m == CHOOSE l \in {Len(s) : s \in all} : \A s \in all : l <= Len(s)
       shortest == {s \in all : Len(s) = m}
-  IN CASE Mode = "all" -> all
+  IN CASE Mode = "all" \/ (Len(a) <= AllBelow /\ Len(b) <= AllBelow) -> all
        [] Mode = "min" -> shortest
        [] OTHER -> {CHOOSE s \in shortest : TRUE}
 
